@@ -130,5 +130,47 @@ theorem candsList_cover (rs : α) (src : List (Pt α)) (q : Pt α) (hrs : 0 ≤ 
     · exact Or.inr (candsList_cover rs src q hrs hq hpos ts hinv.2 j hj ha)
 end
 
+/-! ## the executable check implies the invariant -/
+
+theorem inCubeB_sound (c : Pt α) (len : α) (p : Pt α) (h : inCubeB c len p = true) :
+    inCube c len p := by
+  simp only [inCubeB, Bool.and_eq_true, Bool.not_eq_true', decide_eq_false_iff_not, not_lt] at h
+  obtain ⟨⟨⟨⟨⟨h1, h2⟩, h3⟩, h4⟩, h5⟩, h6⟩ := h
+  exact ⟨h1, h2, h3, h4, h5, h6⟩
+
+theorem nodeOkB_sound (src : List (Pt α)) (c : Pt α) (len : α) (pids : List Nat)
+    (h : nodeOkB src c len pids = true) : NodeOk src c len pids := by
+  intro j hj
+  simp only [nodeOkB, List.all_eq_true] at h
+  have hjj := h j hj
+  cases hs : src[j]? with
+  | none => rw [hs] at hjj; cases hjj
+  | some p =>
+    rw [hs] at hjj
+    simp only [Bool.and_eq_true, Bool.not_eq_true', decide_eq_false_iff_not, not_lt] at hjj
+    exact ⟨p, rfl, inCubeB_sound c len p hjj.1, hjj.2⟩
+
+mutual
+theorem invB_sound (src : List (Pt α)) : ∀ t : Tree α, Tree.invB src t = true → TreeInv src t
+  | Tree.leaf c len pids => by
+    intro h
+    simp only [Tree.invB] at h
+    simp only [TreeInv]
+    exact nodeOkB_sound src c len pids h
+  | Tree.node c len ch => by
+    intro h
+    simp only [Tree.invB, Bool.and_eq_true] at h
+    simp only [TreeInv]
+    exact ⟨nodeOkB_sound src c len _ h.1, invListB_sound src ch h.2⟩
+theorem invListB_sound (src : List (Pt α)) :
+    ∀ ts : List (Tree α), Tree.invListB src ts = true → TreeInvList src ts
+  | [] => by intro _; simp only [TreeInvList]
+  | t :: ts => by
+    intro h
+    simp only [Tree.invListB, Bool.and_eq_true] at h
+    simp only [TreeInvList]
+    exact ⟨invB_sound src t h.1, invListB_sound src ts h.2⟩
+end
+
 end
 end PysphVerif.Nnps
